@@ -2,6 +2,7 @@ package main
 
 import (
 	"fmt"
+	"go/token"
 	"go/types"
 	"strings"
 
@@ -405,6 +406,77 @@ func instrBeforeOrDom(a, b ssa.Instruction) bool {
 	return reach(a.Block())
 }
 
+// ruleStepPreconditionsMatchPlanner: the planner emits steps whose own
+// precondition must hold when their turn comes, so a precondition may refuse
+// only what the planner never produces. TransferLeader: the target peer is
+// missing or a learner — an incoming voter of a joint state is a legal target.
+// And the merge helper prepares the source only when the two regions really
+// differ: isRegionMatch answers true only if every peer of one region has a
+// peer of the same learner-ness on the same store in the other.
+func ruleStepPreconditionsMatchPlanner(c *Ctx) {
+	P := c.P
+	rule := c.Prop + "/step-safety"
+	cs := P.Method(opk, "TransferLeader", "CheckSafety")
+	getSP := F(P.Method("server/core", "RegionInfo", "GetStorePeer"))
+	isLearner := F(P.Func("server/core", "IsLearner"))
+	missing := guardRel("no peer on the target store", "==", resultOfCall(getSP), isNilConst)
+	learner := guardCall("the target peer is a learner", true, callMatcher(isLearner))
+	c.need(rule, cs, "refusal", func(x ssa.Instruction) bool {
+		r, ok := x.(*ssa.Return)
+		return ok && errReturn(r)
+	}, []Ev{missing, learner}, anyOf, "a leader transfer is refused only because the target peer is missing or a learner")
+	// isRegionMatch
+	rm := P.Func(opk, "isRegionMatch")
+	getPeers := F(P.Method("server/core", "RegionInfo", "GetPeers"))
+	c.saw(fnName(rm))
+	ranges := false
+	for _, b := range rm.Blocks {
+		for _, ins := range b.Instrs {
+			if u, ok := ins.(*ssa.UnOp); ok && u.Op == token.MUL {
+				if ia, ok := u.X.(*ssa.IndexAddr); ok && valueIsCallTo(ia.X, getPeers) {
+					ranges = true
+				}
+			}
+		}
+	}
+	c.Check(ranges, rule, "peer loop in "+fnName(rm), "every peer of the region (voters and learners) is compared", P.pos(rm.Pos()), "")
+	c.atomRejects(rule, rm, "no peer on the same store ⇒ false", relMatcher("==", resultOfCall(getSP), isNilConst), boolReturn(false))
+	c.atomRejects(rule, rm, "learner-ness differs ⇒ false", relMatcher("!=", resultOfCall(isLearner), resultOfCall(isLearner)), boolReturn(false))
+}
+
+// ruleLeaderRoleRules: with placement rules, a store accepts the leader only
+// through a rule whose role is leader or voter (a follower or learner rule
+// grants no leadership) and whose label constraints it satisfies.
+func ruleLeaderRoleRules(c *Ctx) {
+	P := c.P
+	rule := c.Prop + "/leader-candidates"
+	allow := P.Method(opk, "Builder", "allowLeader")
+	role := P.Field("server/schedule/placement", "Rule", "Role")
+	lead, ok1 := constStringObj(P.obj("server/schedule/placement", "Leader"))
+	voter, ok2 := constStringObj(P.obj("server/schedule/placement", "Voter"))
+	if !ok1 || !ok2 {
+		undecidedf("placement.Leader / placement.Voter are not string constants")
+	}
+	match := F(P.Func("server/schedule/placement", "MatchLabelConstraints"))
+	rules := P.Field(opk, "Builder", "rules")
+	c.need(rule, allow, "acceptance under placement rules", func(x ssa.Instruction) bool {
+		r, ok := x.(*ssa.Return)
+		if !ok || len(r.Results) != 1 {
+			return false
+		}
+		b, isC := constBool(retVal(r, 0))
+		return isC && b
+	}, []Ev{
+		guardRel("rule role == leader", "==", loadOfField(role), isConstStr(lead)),
+		guardRel("rule role == voter", "==", loadOfField(role), isConstStr(voter)),
+		guardCall("the store satisfies the rule's label constraints", true, callMatcher(match)),
+		guardRel("no placement rules", "==", lenOf(loadOfField(rules)), isConstInt(0)),
+		guardRel("the store already holds the leader", "==", anyVal, loadOfField(P.Field(opk, "Builder", "currentLeaderStoreID"))),
+		&guardEv{name: "cluster limits ignored (forced)", match: func(cond ssa.Value, pos bool) bool { _, isP := cond.(*ssa.Parameter); return isP && pos }},
+	}, func(h []bool) bool { return h[3] || h[4] || h[5] || ((h[0] || h[1]) && h[2]) },
+		"accepted only without rules, for the current leader's store, when forced, or through a leader/voter rule whose constraints the store satisfies")
+}
+
 // ruleForceFlagOwnership: allowLeader(peer, force) skips the "store accepts
 // leaders" test when force is set. The flag is raised only by the explicit
 // builder option and by the leave-joint-state operator (which must hand the
@@ -614,12 +686,12 @@ func rulePlanPriority(c *Ctx) {
 func init() {
 	register("C08", "Generated operator steps are safe and reach the requested placement", func(c *Ctx) {
 		c.Group("C08/planner-state", "steps are emitted only by the exec helpers, each of which applies its step to the simulated region state and consumes the pending task, on every path", func() { ruleBuilderState(c) })
-		c.Group("C08/leader-candidates", "target leaders and planned hand-over leaders passed allowLeader and are never the store being removed/demoted; allowLeader rejects learners, demoting voters and unknown stores; hand-over precedes demote/remove", func() { ruleLeaderCandidates(c); ruleForceFlagOwnership(c) })
+		c.Group("C08/leader-candidates", "target leaders and planned hand-over leaders passed allowLeader and are never the store being removed/demoted; allowLeader rejects learners, demoting voters and unknown stores; hand-over precedes demote/remove", func() { ruleLeaderCandidates(c); ruleForceFlagOwnership(c); ruleLeaderRoleRules(c) })
 		c.Group("C08/plan-priority", "one-at-a-time planning considers demote/remove only after replace and promote are exhausted", func() { rulePlanPriority(c) })
 		c.Group("C08/replace-plans", "a replace plan never adds on the store it removes from", func() { ruleReplacePlans(c) })
 		c.Group("C08/joint-ordering", "joint consensus: enter/leave without inner transfer only when the leader of that moment stays a voter; enter → transfer → leave; removals last", func() { ruleJointOrdering(c) })
 		c.Group("C08/prepare", "requests without voters or with a disallowed leader are rejected; steps only from a validated request; an operator only after successful planning", func() { rulePrepareBuild(c); rulePlannedPeerIdentity(c) })
-		c.Group("C08/step-safety", "every step kind has a precondition check (leader protection) and a send case", func() { ruleStepSafety(c); ruleStepSwitchExhaustive(c) })
+		c.Group("C08/step-safety", "every step kind has a precondition check (leader protection) and a send case", func() { ruleStepSafety(c); ruleStepSwitchExhaustive(c); ruleStepPreconditionsMatchPlanner(c) })
 		c.Group("C08/id-kind", "(shared with C09) store ids and peer ids are not mixed in the planner", func() { ruleIDKinds(c, "server/schedule/operator", "server/schedule") })
 	})
 }
